@@ -137,6 +137,11 @@ def step (st : St) (ws : List String) : St × String :=
   | ["q", srt, cons, lim, cont] => (st, doQuery w srt cons lim (some cont) none)
   | ["ar", srt, cons, lim, piv] => (st, doQuery w srt cons lim none (some piv))
   | ["ar", srt, cons, lim, piv, cont] => (st, doQuery w srt cons lim (some cont) (some piv))
+  -- qr / arr: the same requests issued by a caller that reuses one Go query value; the handler must
+  -- answer exactly as for fresh values (it owns no state of the caller)
+  | ["qr", srt, cons, lim, cont] => (st, doQuery w srt cons lim (some cont) none)
+  | ["arr", srt, cons, lim, piv] => (st, doQuery w srt cons lim none (some piv))
+  | ["arr", srt, cons, lim, piv, cont] => (st, doQuery w srt cons lim (some cont) (some piv))
   | _ => (st, "bad-op")
 
 def machine : Machine := { σ := St, init := ⟨[], []⟩, step := step }
